@@ -35,6 +35,8 @@
 (*                                                                         *)
 (* The generator part (Init/Next/Emit, LimitsGen*.cfg) enumerates cases:   *)
 (* one field at a boundary value, and pairs of fields; each is printed as  *)
+(* (Composed: 2x2 component values that leave the 2.14 range only as the   *)
+(* product of two nested component transforms.)  Each is printed as        *)
 (* a REPLAY line with its allowed outcome set.  checks/c19.py turns a case *)
 (* into a real source, builds it with both compiler profiles, measures the *)
 (* outputs (vh limits) and hands the observations to LimitsObs.tla, which  *)
@@ -73,6 +75,12 @@ FieldDef == [
   comp_dy      |-> [lo |-> I16Lo, hi |-> I16Hi, kind |-> "static", mag |-> FALSE],
   comp_xx      |-> [lo |-> I16Lo, hi |-> I16Hi, kind |-> "static", mag |-> FALSE],   \* q14: [-2, 2)
   comp_xy      |-> [lo |-> I16Lo, hi |-> I16Hi, kind |-> "static", mag |-> FALSE],   \* q14
+  \* the same 2.14 field when the value arises only by COMPOSITION of two component transforms that are each
+  \* representable: v = a * b, a = scale of a component referencing an intermediate glyph, b = scale of the
+  \* intermediate glyph's own component.  _nx: the intermediate glyph is not exported (public.skipExportGlyphs)
+  \* and is inlined; _fl: both are exported and the build runs with --flatten-components
+  comp_xx_nx   |-> [lo |-> I16Lo, hi |-> I16Hi, kind |-> "static", mag |-> FALSE],   \* q14
+  comp_xx_fl   |-> [lo |-> I16Lo, hi |-> I16Hi, kind |-> "static", mag |-> FALSE],   \* q14
   advance      |-> [lo |-> 0,     hi |-> U16Hi, kind |-> "static", mag |-> FALSE],
   lsb          |-> [lo |-> I16Lo, hi |-> I16Hi, kind |-> "static", mag |-> FALSE],
   \* vmtx (sources with vertical metrics): advance height, top side bearing = vertical origin - yMax
@@ -227,6 +235,7 @@ Values(f) ==
     [] f = "lsb" -> I16Neg \cup {32766, 32767, 32768, 32769, 40000}
     [] f \in {"pdelta_x", "pdelta_y"} -> DeltaMag
     [] f \in {"comp_xx", "comp_xy"} -> Q14Vals
+    [] f \in {"comp_xx_nx", "comp_xx_fl"} -> {}       \* generated from factor pairs, see Composed
     [] f = "advance" -> U16Vals
     [] f = "vadvance" -> {65535, 65536, 65538, 70000, 131072, 0, -1, -3, -100} \cup (IF Thorough THEN U16Vals ELSE {})
     [] f = "tsb" -> Signed(DeltaMag)       \* both the origin and yMax stay representable
@@ -247,7 +256,19 @@ Srcs(f) ==
     [] f = "width_class_g" -> {"var"}
     [] OTHER -> {"static", "var"}
 
-Item(f, v) == [field |-> f, v |-> v]
+\* a, b: the two factors (q14) of a composed value, 0 for every other field
+Item(f, v) == [field |-> f, v |-> v, a |-> 0, b |-> 0]
+\* factor pairs in q14 whose product is again an exact q14 number; each factor lies well inside (-2, 2)
+\*   1.5*1.5 = 2.25   -1.5*1.5 = -2.25   1.875*1.125 = 2.109375   1.5*1.34375 = 2.015625 (just over)
+\*   1.375*1.375 = 1.890625   1.5*1.3125 = 1.96875 (just under)   1.375*-1.375 = -1.890625
+Factors == {<<24576, 24576>>, <<-24576, 24576>>, <<30720, 18432>>, <<24576, 22016>>,
+            <<22528, 22528>>, <<24576, 21504>>, <<22528, -22528>>}
+           \cup (IF Thorough THEN {<<-24576, -24576>>, <<28672, 28672>>, <<18432, -30720>>, <<24576, -22016>>,
+                                   <<16384, 24576>>, <<8192, 28672>>, <<31744, 31744>>} ELSE {})
+ItemC(f, a, b) == [field |-> f, v |-> (a * b) \div 16384, a |-> a, b |-> b]
+ASSUME \A p \in Factors : (p[1] * p[2]) % 16384 = 0
+Composed == {[items |-> <<ItemC(f, p[1], p[2])>>, src |-> s] :
+                f \in {"comp_xx_nx", "comp_xx_fl"}, p \in Factors, s \in {"static", "var"}}
 Singles == UNION {{[items |-> <<Item(f, v)>>, src |-> s] : v \in Values(f), s \in Srcs(f)} : f \in Fields}
 
 \* cases that only exist as a combination
@@ -275,11 +296,11 @@ Pairs == UNION {UNION {
 \* (a rectangle from -40000 to 40000: judged as one item, the difference)
 Wide == {[items |-> <<Item("pdelta_x", 80000)>>, src |-> "static"]}
 
-Cases == Singles \cup Linked \cup Pairs \cup Wide
+Cases == Singles \cup Linked \cup Pairs \cup Wide \cup Composed
 
 Describe(c) ==
   [items |-> [i \in 1..Len(c.items) |->
-                 [field |-> c.items[i].field, v |-> c.items[i].v,
+                 [field |-> c.items[i].field, v |-> c.items[i].v, a |-> c.items[i].a, b |-> c.items[i].b,
                   lo |-> Lo(c.items[i].field), hi |-> Hi(c.items[i].field),
                   dir |-> Dir(c.items[i].field, c.items[i].v),
                   kind |-> FieldDef[c.items[i].field].kind,
